@@ -22,7 +22,8 @@ RULE = (
     "lattice incl. the empty prefix, any delimiter) built by constructor or add_record in a random order, "
     "queried with boundary strings derived from it; every parse_uri/compress/is_uri return is compared with a "
     "linear-scan longest-prefix model, and the same record set is rebuilt in other permutations (all of them up "
-    "to 3 records, sampled above) to compare answers; in every second case the record set is also registered step by "
+    "to 3 records, sampled above) to compare answers; every 16th case is a map of 20-80 records whose URI prefixes form a "
+    "deep random tree; in every second case the record set is also registered step by "
     "step (URI synonyms sometimes arriving later through a merge) while the same boundary strings are asked before and "
     "after every registration. A key = overlap-forest shape + query class + build "
     "method; non-trivial = at least 2 registered prefixes match the query (a real longest-match decision) or "
@@ -50,6 +51,8 @@ def qclass(sp, q, allu):
 def run_case(ctx, g, rng):
     api = ctx.api
     d = rng.choice(gen.DELIMS)
+    if g % 16 == 15:
+        return big_map_case(ctx, g, rng, d)
     recs = gen.records(rng, d, 0, 6, allow_delim=rng.random() < 0.2)
     c, how = gen.build(api, recs, d, rng)
     sp = spec.SpecConverter(recs, d)
@@ -146,3 +149,35 @@ def run_case(ctx, g, rng):
                           records=[spec.rec_dict(r) for r in recs], delimiter=d, query=q, first=answers[q], second=a,
                           steps=[spec.rec_dict(r) for r, _ in steps])
         probe.note_key(f"history:{shape}", True)
+
+
+def big_map_case(ctx, g, rng, d):
+    """20-80 records whose URI prefixes form a deep random tree: longest match among many candidates."""
+    api = ctx.api
+    n = rng.randint(20, 80)
+    nodes = ["http://x/", "https://y.org/ns#", "urn:z:"]
+    while len(nodes) < n * 2:
+        base = rng.choice(nodes)
+        nodes.append(base + rng.choice("abcAB01_/#-") * rng.randint(1, 2))
+        nodes = list(dict.fromkeys(nodes))
+    rng.shuffle(nodes)
+    recs = []
+    for i in range(n):
+        u = nodes.pop()
+        usyn = tuple(nodes.pop() for _ in range(rng.choice([0, 0, 1, 2])) if len(nodes) > n - i)
+        recs.append(spec.Rec(f"p{i}", u, (f"P{i}",) if i % 4 == 0 else (), usyn, None))
+    c, how = gen.build(api, recs, d, rng, rng.choice(["ctor", "incremental", "mixed"]))
+    sp = spec.SpecConverter(recs, d)
+    allu = [u for r in recs for u in spec.all_u(r)]
+    deepest = 0
+    for u in rng.sample(allu, k=min(40, len(allu))):
+        for q in (u, u + "1", u[:-1], u + rng.choice("abAB_/")):
+            call(c.parse_uri, q, return_none=True)
+            call(c.compress, q)
+            call(c.is_uri, q)
+            m = len(sp.uri_matches(q))
+            deepest = max(deepest, m)
+            probe.note_key(f"big:n{n // 20}:m{min(m, 6)}:{how}", m >= 2)
+    probe.S.counters["wl:big-maps"] += 1
+    probe.S.counters["wl:big-maps-deepest-nesting"] = max(probe.S.counters["wl:big-maps-deepest-nesting"], deepest)
+    probe.evaluated("order-independence", 0)
